@@ -82,6 +82,7 @@ func (s *SSummary) Coverage() map[string]any {
 		"partial_executions_next_bound": s.PartialExecs,
 		"exhaustive":                    !s.Capped && s.CompletedBound == s.TargetBound,
 		"divergences":                   s.Diverged,
+		"executions_per_scenario":       s.PerScen,
 	}
 }
 
@@ -168,6 +169,9 @@ func ExploreAll(r *Run, scens []Scenario, split bool, maxExecsPerTask int) *SSum
 		if lv.Capped {
 			final.Capped = true
 			final.PartialExecs = lv.Execs
+			if final.CompletedBound < 0 {
+				final.PerScen = lv.PerScen
+			}
 			break
 		}
 		final.CompletedBound = level
